@@ -430,6 +430,10 @@ func (x *xl) stmt(s ast.Stmt, k cont) (string, error) {
 		return x.forStmt(t, "", k)
 	case *ast.BranchStmt:
 		return x.branchStmt(t, k)
+	case *ast.SelectStmt:
+		if x.spec.logStmts {
+			return x.selectStmt(t, k)
+		}
 	}
 	if x.spec.logStmts {
 		switch s.(type) {
@@ -1020,6 +1024,16 @@ func (x *xl) declStmt(t *ast.DeclStmt, k cont) (string, error) {
 					if ty.k == "opaque" {
 						x.addParam("nil_"+ty.name, ty.name, "Go zero value of "+ty.name, 1)
 						z = "nil_" + ty.name
+					} else if ty.k == "struct" && x.spec.logStmts {
+						// `var e S` in a recording fragment: the variable exists (as unit); reading one
+						// of its fields afterwards is refused (selector), so nothing depends on the
+						// field values the declaration gives
+						if x.zeroStructs == nil {
+							x.zeroStructs = map[string]bool{}
+						}
+						x.zeroStructs[n.Name] = true
+						x.note("line %d: `%s` declares a zero %s; the fragment does not read its fields", x.line(t), firstLine(stmtStr(t)), ty.name)
+						z = "tt"
 					} else {
 						return "", errf("line %d: zero value of %s is outside the subset", x.line(t), ty.coq())
 					}
@@ -1236,6 +1250,53 @@ func (x *xl) switchStmt(t *ast.SwitchStmt, k cont) (string, error) {
 		return x.stmt(t.Init, run)
 	}
 	return run()
+}
+
+// select, in a fragment that records statements: which case proceeds is not decided by the
+// function, so it is a parameter (sel_<line>: 0-based index in source order; any other value means
+// the last case).  Each case is its communication (recorded; a received value is a fresh parameter)
+// followed by its body.  Inside a translated loop one parameter would have to serve every
+// iteration, so that is refused.
+func (x *xl) selectStmt(t *ast.SelectStmt, k cont) (string, error) {
+	if len(x.loops) > 0 {
+		return "", errf("line %d: select inside a translated loop is outside the subset (its outcome differs per iteration)", x.line(t))
+	}
+	var clauses []*ast.CommClause
+	for _, c := range t.Body.List {
+		clauses = append(clauses, c.(*ast.CommClause))
+	}
+	if len(clauses) == 0 {
+		return "", errf("line %d: empty select (blocks forever) is outside the subset", x.line(t))
+	}
+	name := fmt.Sprintf("sel_%d", x.line(t))
+	x.push()
+	defer x.pop()
+	v := x.declare(name, tZ)
+	x.addParam(v.coq, "Z", fmt.Sprintf("which case of the select at line %d proceeds (0-based, source order; any other value: the last case)", x.line(t)), 2)
+	var chain ast.Stmt
+	for i := len(clauses) - 1; i >= 0; i-- {
+		c := clauses[i]
+		var body []ast.Stmt
+		if c.Comm != nil {
+			body = append(body, c.Comm)
+		}
+		for _, b := range c.Body {
+			if br, ok := b.(*ast.BranchStmt); ok && br.Tok == token.BREAK && br.Label == nil {
+				return "", errf("line %d: break inside a select is outside the subset", x.line(b))
+			}
+			body = append(body, b)
+		}
+		blk := &ast.BlockStmt{List: body, Lbrace: c.Pos()}
+		if chain == nil {
+			chain = blk
+			continue
+		}
+		cond := &ast.BinaryExpr{X: &ast.Ident{Name: name, NamePos: c.Pos()}, Op: token.EQL, OpPos: c.Pos(),
+			Y: &ast.BasicLit{Kind: token.INT, Value: fmt.Sprint(i), ValuePos: c.Pos()}}
+		chain = &ast.IfStmt{If: c.Pos(), Cond: cond, Body: blk, Else: chain}
+	}
+	kk := x.bindK(k)
+	return x.stmt(chain, kk)
 }
 
 // ---------------------------------------------------------------------------
